@@ -100,7 +100,10 @@ def engine_check(prop, report, tier, seed, n_quick=160, n_thorough=6000, extra=N
     return walks
 
 
-def check_C01(report, tier, seed): engine_check("C01", report, tier, seed, plan_policies=True)
+def check_C01(report, tier, seed):
+    import suites_engine as S
+    engine_check("C01", report, tier, seed, plan_policies=True)
+    S.failing_ack_family(report, "C01")
 def check_C04(report, tier, seed):
     import suites_engine as S
     engine_check("C04", report, tier, seed)
@@ -153,6 +156,7 @@ def check_C14(report, tier, seed):
     import suites_engine as S
     engine_check("C14", report, tier, seed, snap_after_svc=True)
     S.ping_behind_large_publish_family(report, "C14")
+    S.ping_queued_at_close_family(report, "C14")
 def check_C15(report, tier, seed): engine_check("C15", report, tier, seed, plan_policies=True)
 def check_C18(report, tier, seed):
     import suites_engine as S
